@@ -162,13 +162,19 @@ def run_rbf(case):
         n = len(np.arange(NFEAT)[idx])
         k = K.SubsetRBF(idx, length_scale=LS[:n] * 1.1)
     kernel = K.DiffConstantKernel(1.7) * k if case["scaled"] else k
+    # the evaluator receives control points restricted to the active columns (its C kernel reads exactly that many
+    # entries per row); control points of any other width must be rejected, not read out of bounds
+    cols_own = list(np.arange(NFEAT)[idx]) if idx is not None else list(range(NFEAT))
+    if idx is not None:
+        try:
+            X.RBFEvaluator(kernel, Xc, alpha)
+            fails.append({"key": "accepted-wrong-width;" + ck, "msg": "RBFEvaluator accepted control points with %d columns for a kernel acting on %d" % (Xc.shape[1], len(cols_own))})
+        except (ValueError, AssertionError):
+            pass
     try:
-        ev = X.RBFEvaluator(kernel, Xc if idx is None else Xc[:, idx] if False else Xc, alpha)
-    except Exception as e:
-        return {"fail": [{"key": "cannot-map;%s;%s" % (ck, type(e).__name__), "msg": "RBFEvaluator cannot be built for %s: %s: %s" % (ck, type(e).__name__, str(e)[:150])}], "evals": 1, "outcome": "raised"}
-    # the evaluator receives control points restricted to the active columns, as the mapping code does
-    try:
-        ev = X.RBFEvaluator(kernel, np.ascontiguousarray(Xc[:, ev._indexes]), alpha)
+        ev = X.RBFEvaluator(kernel, np.ascontiguousarray(Xc[:, cols_own]), alpha)
+        if list(ev._indexes) != cols_own:
+            fails.append({"key": "indexes;" + ck, "msg": "evaluator selects columns %s, the kernel acts on %s" % (list(ev._indexes), cols_own)})
         chk = _compare_exact(ev, kernel, Xc, alpha, ck, fails, cols=None if idx is None else list(ev._indexes))
     except Exception as e:
         return {"fail": [{"key": "cannot-evaluate;%s;%s" % (ck, type(e).__name__), "msg": "mapped RBFEvaluator for %s raised %s: %s" % (ck, type(e).__name__, str(e)[:150])}], "evals": 1, "outcome": "raised"}
